@@ -91,6 +91,10 @@ def INDEX(arr, row_num=DEFAULT, column_num=DEFAULT, area_num=DEFAULT):
         column_num = utils.parse_number(column_num)
         if isinstance(column_num, error.XLError):
             return column_num
+    if (row_num is not DEFAULT and row_num < 0) or (column_num is not DEFAULT and column_num < 0):
+        return error.VALUE  # python would count a negative position from the end
+    if (row_num is DEFAULT or row_num == 0) and (column_num is DEFAULT or column_num == 0):
+        return arr  # no position given at all: the whole array
     try:
         if row_num is DEFAULT:
             if bidimensional:
